@@ -4,6 +4,8 @@
 //
 // stdin : one case per line   "<id> <host> <hex of program text, lines separated by \n>"
 //         host = punch | print | rates | calc | punchhp (USER_PUNCH with -high_precision true)
+//              | hist: program text "A\n@@\nB": simulation 1 defines USER_PUNCH A and SOLUTION 1 (row 1), simulation 2
+//                redefines USER_PUNCH as B and defines SOLUTION 2 (row 2); rows are separated by the item "/"
 // stdout: one line per case   "R <id> <host> <status> <items...> | <hex of error text>"
 //         status = ok | err | exc | sig<N> | timeout ; items: D<16 hex> (double) S<hex> (string) T<hex> (print text)
 // argv[1] = database file (default /repo/database/phreeqc.dat), argv[2] = per-case timeout seconds (default 10)
@@ -52,6 +54,7 @@ public:
     else if (in_user_print) print_text += t;
     IPhreeqc::output_msg(s);
   }
+  virtual void fpunchf_end_row(const char* fmt) { punches.push_back("/"); IPhreeqc::fpunchf_end_row(fmt); }
   virtual void fpunchf(const char* name, const char* fmt, double d) { punches.push_back("D" + hx::hexd(d)); IPhreeqc::fpunchf(name, fmt, d); }
   virtual void fpunchf(const char* name, const char* fmt, char* s) { punches.push_back("S" + hx::hex(s ? s : "")); IPhreeqc::fpunchf(name, fmt, s); }
 };
@@ -62,6 +65,10 @@ static std::string build_input(const std::string& host, const std::string& prog)
     in = "SOLUTION 1\nSELECTED_OUTPUT 1\n -reset false\n";
     if (host == "punchhp") in += " -high_precision true\n";
     in += "USER_PUNCH 1\n" + prog + "\nEND\n";
+  } else if (host == "hist") {
+    size_t k = prog.find("\n@@\n");
+    std::string a = k == std::string::npos ? prog : prog.substr(0, k), b = k == std::string::npos ? prog : prog.substr(k + 4);
+    in = "SOLUTION 1\nSELECTED_OUTPUT 1\n -reset false\nUSER_PUNCH 1\n" + a + "\nEND\nUSER_PUNCH 1\n" + b + "\nSOLUTION 2\nEND\n";
   } else if (host == "print") {
     in = "SOLUTION 1\nUSER_PRINT\n" + prog + "\nEND\n";
   } else if (host == "rates") {
@@ -97,8 +104,12 @@ static std::string run_case(BasicIPhreeqc* p, const std::string& host, const std
     for (int r = 1; r < nr; ++r)
       for (int c = 0; c < nc; ++c) { VAR v; VarInit(&v); p->GetSelectedOutputValue(r, c, &v); items.push_back(show(v)); VarClear(&v); }
     // the event stream must say the same as the table (one row): otherwise report both
-    if (!exc && nerr == 0 && items != p->punches) { items.push_back("!events"); for (auto& s : p->punches) items.push_back(s); }
-    if (nerr != 0 || exc) items = p->punches;
+    std::vector<std::string> ev; for (auto& x : p->punches) if (x != "/") ev.push_back(x);
+    if (!exc && nerr == 0 && items != ev) { items.push_back("!events"); for (auto& s : ev) items.push_back(s); }
+    if (nerr != 0 || exc) items = ev;
+  } else if (host == "hist") {
+    // the PUNCH call sequence per row (event stream; "/" between rows = fpunchf_end_row)
+    items = p->punches;
   } else if (host == "print") {
     items.push_back("T" + hx::hex(p->print_text));
   } else if (host == "rates") {
